@@ -1,4 +1,5 @@
 import TakVerif.Spec.GameTruth
+import TakVerif.Impl.DFPN
 namespace Driver
 
 /-- session state of the C06 ops: the last exactly solved game graph (`pngraph`), identified by
@@ -11,7 +12,12 @@ structure SolverGraph where
   winB : Array Bool
 
 structure SolverSession where
+  /-- cache: survives `case` (a pure function of root position and cap) -/
   graph : Option SolverGraph := none
+  /-- depth-first solvers kept between `dfpnuse` ops (table, killer moves, attacker) -/
+  dfpn : List (String × Tak.DFPN.Solver Tak.Move) := []
+  /-- provers kept between `pnuse` ops: the configuration as earlier calls rewrote it -/
+  pn : List (String × Tak.PN.Cfg) := []
 deriving Inhabited
 
 end Driver
